@@ -246,6 +246,17 @@ def run(ctx, anchors=None):
             # i.e. the first conjunct of its condition
             ifs = [a for a in stepper.ancestors(n) if a.get("k") == "if" and S.contains(a.get("cond"), n)]
             size_sites.append(S.conjuncts(ifs[0]["cond"])[0] if ifs else n)
+    # the test may sit in a same-file helper the stepper calls after the switch (a shared "enter the next script" tail): a call
+    # of a helper whose every path passes the test counts as the test
+    for (f, n, r) in per_limit.get("MAX_SCRIPT_SIZE", []):
+        if f is not stepper and f.file == stepper.file and f.body is not None:
+            ifs = [a for a in f.ancestors(n) if a.get("k") == "if" and S.contains(a.get("cond"), n)]
+            anchor_ = S.conjuncts(ifs[0]["cond"])[0] if ifs else n
+            fcfg_ = f.cfg()
+            if fcfg_.must_pass_from_block(fcfg_.entry, [anchor_]):
+                for cn in stepper.nodes():
+                    if astq.is_call(cn) and cn.get("cid") == f.id:
+                        size_sites.append(cn)
     for swn in sw10:
         ctx.site()
         key = astq.estr(swn)[:40]
